@@ -5,7 +5,10 @@ import PxModel.Generated
   * `proxy/http/handler.py`
       - `__init__`            : `last_activity = start_time = time.time()`
       - `handle_readables`    : client fd in readables  ⇒ `last_activity = time.time()`
-                                 (before the `recv`, whatever it returns)
+                                 (before the `recv`, whatever it returns or raises);
+                                 `ssl.SSLWantReadError` ⇒ keep going; EOF / reset / timeout / other
+                                 `OSError` ⇒ `reads_teared`, and `handle_events` returns `True`
+                                 (connection torn down) as soon as nothing is left to flush
       - `handle_writables`    : client fd in writables **and** `work.has_buffer()`
                                  ⇒ `last_activity = time.time()` (before the flush, whatever it sends)
       - `is_inactive`         : `not work.has_buffer() and time.time() - last_activity > flags.timeout`
@@ -49,6 +52,11 @@ inductive Ev where
   /-- the client descriptor was reported readable and handled at `t`;
       handling the data queued `k` chunks of output for the client -/
   | clientRead (t : Int) (k : Nat)
+  /-- the client descriptor was reported readable at `t` and the read ended reading for good:
+      `recv` returned EOF or raised `ConnectionResetError` / `TimeoutError` / any other `OSError`
+      (`BlockingIOError` included) — every outcome of `handle_readables` that returns `True`.
+      (`ssl.SSLWantReadError` keeps the connection and is `clientRead t 0`.) -/
+  | clientReadEnd (t : Int)
   /-- the client descriptor was reported writable and handled at `t`;
       `full` = the first queued chunk went out entirely (only meaningful with pending output) -/
   | clientWrite (t : Int) (full : Bool)
@@ -62,13 +70,17 @@ inductive Ev where
 
 def Ev.time : Ev → Int
   | .clientRead t _ => t
+  | .clientReadEnd t => t
   | .clientWrite t _ => t
   | .upstream t _ => t
   | .loopIter t => t
 
 inductive Status where
   | open
+  /-- closed by the idle reaper at `t` -/
   | reaped (t : Int)
+  /-- torn down at `t` because `handle_events` returned `True` (reads ended and nothing left to flush) -/
+  | torn (t : Int)
   deriving Repr, DecidableEq
 
 structure St where
@@ -80,12 +92,14 @@ structure St where
   tick : Nat
   /-- number of `_cleanup_inactive()` calls (threaded: `is_inactive()` checks) so far -/
   reaperRuns : Nat
+  /-- `HttpProtocolHandler.reads_teared` -/
+  readsTorn : Bool
   status : Status
   deriving Repr, DecidableEq
 
 /-- state right after the handler object is constructed at time `t0` -/
 def init (t0 : Int) : St :=
-  { lastActivity := t0, numBuffer := 0, tick := 0, reaperRuns := 0, status := .open }
+  { lastActivity := t0, numBuffer := 0, tick := 0, reaperRuns := 0, readsTorn := false, status := .open }
 
 /-- `work.has_buffer()` -/
 def St.hasBuffer (s : St) : Bool := s.numBuffer != 0
@@ -101,10 +115,19 @@ def due (cfg : Cfg) (k : Nat) : Bool :=
 
 /-- connection-level effect of an event on an open connection -/
 def connStep (s : St) : Ev → St
-  | .clientRead t k => { s with lastActivity := t, numBuffer := s.numBuffer + k }
+  | .clientRead t k =>
+    if s.readsTorn then s          -- `if not self.reads_teared:` — the descriptor is not read any more
+    else { s with lastActivity := t, numBuffer := s.numBuffer + k }
+  | .clientReadEnd t =>
+    if s.readsTorn then s
+    else { s with lastActivity := t, readsTorn := true,
+                  status := if s.numBuffer = 0 then .torn t else s.status }
   | .clientWrite t full =>
     if s.numBuffer = 0 then s
-    else { s with lastActivity := t, numBuffer := if full then s.numBuffer - 1 else s.numBuffer }
+    else
+      let nb := if full then s.numBuffer - 1 else s.numBuffer
+      { s with lastActivity := t, numBuffer := nb,
+               status := if s.readsTorn && nb == 0 then .torn t else s.status }
   | .upstream _ k => { s with numBuffer := s.numBuffer + k }
   | .loopIter _ => s
 
